@@ -21,7 +21,8 @@ RULE = ("port expressions: 5 operators x operands from boundaries {1,2,65534,655
         "windows straddling powers of two; empty denotations lt 1 / gt 65535; thorough: gt N and lt N for every N in "
         "1..65535; codec on random unions of intervals incl. empty, {1}, {65535}, full; write-back histories of length "
         "1..6 over items/ports/sport. judged = invariant-monitor evaluations + write-backs + codec contract "
-        "evaluations; distinct non-trivial = (operator, #operands, boundary class, history shape)")
+        "evaluations; distinct non-trivial = (operator, #operands, boundary class, history shape)"
+        " Round 4: repeated operands / list values (set-only judgement); sport read before ports on every second monitor evaluation.")
 ASSUMPTIONS = ["eq/neq operand lists are distinct for the text clauses; with repeated operands ('eq 5 5 7') only the denoted set is judged",
                "operands outside 1..65535 are outside the quantifier"]
 
